@@ -149,7 +149,8 @@ def _two_tier(r: Rel, P: float, ref: dict, dV: float, zerr: float, wmin: float, 
     """tier (i) for every shape, tier (ii) for resolved ones. Returns (resolved, relerr_ref)."""
     # reference evaluated at the harness' z_j; if WallGo's cached z differ by zerr the integrand moves by
     # <= 8 zerr/w_min relative (d/dz of g.phi' ~ few/w_min)
-    tol_i = ref["tol"] + 8.0 * zerr / wmin * ref["absint"]
+    # + 1e-100 |dV|: a wall entirely off the grid has P = 0 by underflow in both; do not demand bitwise-zero agreement
+    tol_i = ref["tol"] + 8.0 * zerr / wmin * ref["absint"] + 1e-100 * abs(dV)
     r.close(prefix + "tierI-pressure-eq-reference-quadrature", P, ref["P"], tol_i)
     relref = abs(ref["P"] - dV) / abs(dV)
     resolved = relref <= RESOLVED_REL
